@@ -32,7 +32,7 @@ KIND = "class"
 
 def budgets(tier):
     if tier == "quick":
-        return {"core": 1000, "frontier": 50, "shards": 1}
+        return {"core": 1000, "frontier": 90, "shards": 1}
     return {"core": 16 * 6000, "frontier": 16 * 250, "shards": 16}
 
 
